@@ -411,7 +411,7 @@ func pipeForms() []call {
 		prods = append(prods, stage{fmt.Sprintf("repeat %d x", n), "values", n})
 		prods = append(prods, stage{fmt.Sprintf("range %d | each {|x| echo $x }", n), "bytes", n})
 	}
-	prods = append(prods, stage{"nop", "none", 0}, stage{"print (repeat 100000 x)", "bytes", 1}, stage{"fail x", "none", 0})
+	prods = append(prods, stage{"nop", "none", 0}, stage{"print (repeat 20000 xxxx)", "bytes", 1}, stage{"fail x", "none", 0})
 	cons := []stage{
 		{"read-line", "bytes", 0}, {"read-upto x", "bytes", 0}, {"read-bytes 1", "bytes", 0}, {"slurp", "bytes", 0},
 		{"from-lines", "bytes", 0}, {"from-json", "bytes", 0}, {"from-terminated x", "bytes", 0},
